@@ -488,6 +488,16 @@ def rule_collect_outermost(ctx):
         notcoll = any(e.kind == "cond" and _cell_get(e.term, "Local.collecting") and e.value == 0 for e in pre)
         setc = any(e.kind == "call" and e.ntarget == "std::cell::Cell::set" and "Local.collecting" in show(e.args[0])
                    and const_of(e.args[1]) == 1 for e in pre)
+        # still pinned and still counted while collecting: no store to Local.epoch and no guard_count update before
+        early_clear = [o for o in epoch_ops(p) if o[0] < i and o[3] == "Local.epoch" and o[2] != "load"]
+        early_count = [e for e in pre if e.kind == "call" and e.ntarget == "std::cell::Cell::set"
+                       and "Local.guard_count" in show(e.args[0])]
+        okp = not early_clear and not early_count
+        r.instance("collect runs while the participant is still pinned and counted", okp)
+        if not okp:
+            r.violate(UNPIN, "collect-unpinned", "the local epoch is cleared (or guard_count decremented) before collect runs: the "
+                      "collector's own queue/list accesses and nested cs() calls from destructors are unprotected",
+                      p.events[i].loc())
         ok = outer and notcoll and setc
         r.instance("collect under guard_count==1 && !collecting, with collecting := true", ok)
         if not ok:
